@@ -1,3 +1,4 @@
+import Noodles.Props.C15HdrTxt
 import Noodles.Props.C15Rec
 import Noodles.Props.C15Codec
 import Noodles.Props.C15Text
